@@ -99,8 +99,8 @@ func c07Judge(c *Ctx, j *Job, res *proto.Result) {
 	for _, r := range d.tc.Reads {
 		reads[r] = true
 	}
-	must := map[string]string{}  // required diagnostics -> reason
-	may := map[string]bool{}     // UNSPECIFIED: either presence or absence is accepted
+	must := map[string]string{}    // required diagnostics -> reason
+	may := map[string]bool{}       // UNSPECIFIED: either presence or absence is accepted
 	devPred := map[string]string{} // diagnostics predicted by a listed as-built deviation
 	for i := range d.r.Occ {
 		o := &d.r.Occ[i]
